@@ -7,9 +7,16 @@ Open Scope N_scope.
 
 (* ============================== NKT Interbus ========================================== *)
 
+(* Parameters.  Everything the property does not fix is a parameter of the model, read from the code
+   under test on every run and universally quantified here: types = values of the MessageType enum,
+   maxr = MAX_RETRY_COUNT, base = HOST_BASE_ADDRESS (Interbus); max_transfer_size mts (USBTMC);
+   ho_check = whether ask compares the id of HEADER_ONLY replies (APT, probed). *)
+
 (* decode (encode m) = m for every valid message: any register byte, any data of length <= 240
-   including 0x0A 0x0D 0x5E, also when those values occur in the CRC bytes *)
-Theorem C15_ib_roundtrip : forall m, valid_msg m -> exists f, ib_encode m = Ok f /\ ib_decode f = Ok m.
+   including 0x0A 0x0D 0x5E, also when those values occur in the CRC bytes; for every set of
+   message types that contains the message's type *)
+Theorem C15_ib_roundtrip : forall types m, valid_msg m -> In (m_type m) types ->
+  exists f, ib_encode m = Ok f /\ ib_decode types f = Ok m.
 Proof. exact ib_roundtrip. Qed.
 Print Assumptions C15_ib_roundtrip.
 
@@ -41,18 +48,24 @@ Proof. exact crc_append. Qed.
 Print Assumptions C15_ib_crc_append.
 
 (* a frame that is too short, lacks SOT or EOT, or whose CRC does not verify is a ValueError *)
-Theorem C15_ib_reject : forall e,
+Theorem C15_ib_reject : forall types e,
   (length e < 8)%nat \/ hd 0 e <> 13 \/ last e 0 <> 10 \/
   crc_of (unescape (removelast (tl e))) <> 0 \/ (length (unescape (removelast (tl e))) < 6)%nat ->
-  ib_decode e = Err EValue.
+  ib_decode types e = Err EValue.
 Proof. exact ib_reject. Qed.
 Print Assumptions C15_ib_reject.
+(* ... and so is a message type outside the MessageType enum *)
+Theorem C15_ib_reject_type : forall types e body d s t g data c1 c2,
+  e = 13 :: body ++ [10] -> unescape body = [d; s; t; g] ++ data ++ [c1; c2] -> ~ In t types ->
+  ib_decode types e = Err EValue.
+Proof. exact ib_reject_type. Qed.
+Print Assumptions C15_ib_reject_type.
 
 (* whatever is accepted has SOT/EOT, a verifying CRC, and exactly the returned fields *)
-Theorem C15_ib_decode_sound : forall e m, ib_decode e = Ok m ->
+Theorem C15_ib_decode_sound : forall types e m, ib_decode types e = Ok m ->
   exists body c1 c2,
     e = 13 :: body ++ [10] /\ (8 <= length e)%nat /\ crc_of (unescape body) = 0 /\
-    unescape body = [m_dest m; m_src m; m_type m; m_reg m] ++ m_data m ++ [c1; c2] /\ m_type m <= 9.
+    unescape body = [m_dest m; m_src m; m_type m; m_reg m] ++ m_data m ++ [c1; c2] /\ In (m_type m) types.
 Proof. exact ib_decode_sound. Qed.
 Print Assumptions C15_ib_decode_sound.
 
@@ -63,39 +76,55 @@ Theorem C15_ib_single_byte : forall a x y b,
   x < 256 -> y < 256 -> x <> y -> crc_of (a ++ x :: b) = 0 -> crc_of (a ++ y :: b) <> 0.
 Proof. exact crc_single_byte. Qed.
 Print Assumptions C15_ib_single_byte.
-Theorem C15_ib_single_byte_frame : forall body a x y b,
+Theorem C15_ib_single_byte_frame : forall types body a x y b,
   unescape body = a ++ y :: b -> crc_of (a ++ x :: b) = 0 -> x < 256 -> y < 256 -> x <> y ->
-  ib_decode (13 :: body ++ [10]) = Err EValue.
+  ib_decode types (13 :: body ++ [10]) = Err EValue.
 Proof. exact ib_single_byte. Qed.
 Print Assumptions C15_ib_single_byte_frame.
 
-(* _request_response: a returned response mirrors the request's addresses and is one of the frames
-   actually read; for every script of reads (timeouts, junk, stale replies ...) *)
-Theorem C15_ib_match : forall toggle dst mt reg data script t w m,
-  request_response toggle dst mt reg data script = (t, w, Ok m) ->
-  m_src m = dst /\ m_dest m = 161 + next_toggle toggle /\
-  exists f, In (RdBytes f) script /\ ib_decode f = Ok m.
+(* _request_response, for EVERY retry bound maxr, host base address and message-type set: a returned
+   response mirrors the request's addresses and is one of the frames actually read; for every script
+   of reads (timeouts, junk, stale replies ...) *)
+Theorem C15_ib_match : forall types maxr base toggle dst mt reg data script t w m,
+  request_response types maxr base toggle dst mt reg data script = (t, w, Ok m) ->
+  m_src m = dst /\ m_dest m = base + next_toggle toggle /\
+  exists f, In (RdBytes f) script /\ ib_decode types f = Ok m.
 Proof. exact rr_match. Qed.
 Print Assumptions C15_ib_match.
 
-(* bounded retries: the request is written once plus at most MAX_RETRY_COUNT times, always the same
-   frame; nothing is written for an invalid request; the source toggle flips *)
-Theorem C15_ib_retry_bound : forall toggle dst mt reg data script t w r,
-  request_response toggle dst mt reg data script = (t, w, r) ->
+(* bounded retries: the request is written once plus at most maxr times, always the same frame;
+   nothing is written for an invalid request; the source toggle flips *)
+Theorem C15_ib_retry_bound : forall types maxr base toggle dst mt reg data script t w r,
+  request_response types maxr base toggle dst mt reg data script = (t, w, r) ->
   t = next_toggle toggle /\
-  ((w = [] /\ r = Err EValue /\ ib_encode (mkmsg dst (161 + next_toggle toggle) mt reg data) = Err EValue) \/
-   exists req k, ib_encode (mkmsg dst (161 + next_toggle toggle) mt reg data) = Ok req /\
-                 w = req :: repeat req k /\ (k <= MAX_RETRY)%nat).
+  ((w = [] /\ r = Err EValue /\ ib_encode (mkmsg dst (base + next_toggle toggle) mt reg data) = Err EValue) \/
+   exists req k, ib_encode (mkmsg dst (base + next_toggle toggle) mt reg data) = Ok req /\
+                 w = req :: repeat req k /\ (k <= maxr)%nat).
 Proof. exact rr_bounded. Qed.
 Print Assumptions C15_ib_retry_bound.
 
-(* at most MAX_RETRY_COUNT+1 reads are ever looked at, and they always suffice for a verdict *)
-Theorem C15_ib_read_bound : forall toggle dst mt reg data s1 s2,
-  length s1 = S MAX_RETRY ->
-  request_response toggle dst mt reg data (s1 ++ s2) = request_response toggle dst mt reg data s1 /\
-  snd (request_response toggle dst mt reg data s1) <> Err EExhausted.
+(* at most maxr+1 reads are ever looked at, and they always suffice for a verdict *)
+Theorem C15_ib_read_bound : forall types maxr base toggle dst mt reg data s1 s2,
+  length s1 = S maxr ->
+  request_response types maxr base toggle dst mt reg data (s1 ++ s2) =
+    request_response types maxr base toggle dst mt reg data s1 /\
+  snd (request_response types maxr base toggle dst mt reg data s1) <> Err EExhausted.
 Proof. exact rr_reads. Qed.
 Print Assumptions C15_ib_read_bound.
+
+(* a device that answers correctly only on attempt k = |pre|+1, after |pre| timeouts / malformed /
+   mis-addressed frames: the payload iff k <= maxr+1, otherwise an error (never wrong data) *)
+Theorem C15_ib_attempt : forall types maxr base toggle dst mt reg data req good m pre post,
+  ib_encode (mkmsg dst (base + next_toggle toggle) mt reg data) = Ok req ->
+  ib_decode types good = Ok m -> m_src m = dst -> m_dest m = base + next_toggle toggle ->
+  forallb (failing types dst (base + next_toggle toggle)) pre = true ->
+  ((length pre <= maxr)%nat ->
+     snd (request_response types maxr base toggle dst mt reg data (pre ++ RdBytes good :: post)) = Ok m) /\
+  ((maxr < length pre)%nat ->
+     exists e, snd (request_response types maxr base toggle dst mt reg data (pre ++ RdBytes good :: post)) = Err e
+               /\ e <> EExhausted).
+Proof. exact rr_attempt. Qed.
+Print Assumptions C15_ib_attempt.
 
 Theorem C15_ib_toggle : forall t, t < 2 -> next_toggle t = 1 - t /\ next_toggle (next_toggle t) = t.
 Proof. exact next_toggle_alternates. Qed.
@@ -117,6 +146,12 @@ Print Assumptions C15_usbtmc_out.
 Theorem C15_usbtmc_out_empty : forall mts tag, write_raw [] mts tag = Some ([], tag).
 Proof. exact write_raw_empty. Qed.
 Print Assumptions C15_usbtmc_out_empty.
+
+(* for every max_transfer_size: no transfer exceeds header + max_transfer_size + 3 alignment bytes *)
+Theorem C15_usbtmc_out_sizes : forall data mts tag ts t',
+  write_raw data mts tag = Some (ts, t') -> Forall (fun tr => (length tr <= 12 + mts + 3)%nat) ts.
+Proof. exact write_raw_sizes. Qed.
+Print Assumptions C15_usbtmc_out_sizes.
 
 (* the tag is always in 1..255, 255 is followed by 1 *)
 Theorem C15_usbtmc_tag : forall t, 1 <= next_tag t <= 255.
@@ -336,22 +371,22 @@ Theorem C15_apt_write_data : forall dev host id payload,
 Proof. exact write_data_device. Qed.
 Print Assumptions C15_apt_write_data.
 
-Theorem C15_apt_ask_ok : forall expect sizeof src dst payload extra rest,
+Theorem C15_apt_ask_ok : forall hc expect sizeof src dst payload extra rest,
   expect < 65536 -> len (payload ++ extra) < 65536 -> len payload = sizeof -> dst < 256 -> src < 256 ->
-  apt_ask false expect sizeof (hdr_data expect (len (payload ++ extra)) dst src ++ (payload ++ extra) ++ rest)
+  apt_ask hc false expect sizeof (hdr_data expect (len (payload ++ extra)) dst src ++ (payload ++ extra) ++ rest)
   = (Ok payload, rest).
 Proof. exact apt_ask_ok. Qed.
 Print Assumptions C15_apt_ask_ok.
 
 (* a data reply with an unexpected message id is an error *)
-Theorem C15_apt_ask_wrong_id : forall expect sizeof rid n dst src data rest,
+Theorem C15_apt_ask_wrong_id : forall hc expect sizeof rid n dst src data rest,
   expect <> rid -> rid < 65536 -> len data = n -> n < 65536 ->
-  apt_ask false expect sizeof (hdr_data rid n dst src ++ data ++ rest) = (Err EInstr, rest).
+  apt_ask hc false expect sizeof (hdr_data rid n dst src ++ data ++ rest) = (Err EInstr, rest).
 Proof. exact apt_ask_wrong_id. Qed.
 Print Assumptions C15_apt_ask_wrong_id.
 
-Theorem C15_apt_ask_sound : forall expect sizeof s out rest,
-  apt_ask false expect sizeof s = (Ok out, rest) ->
+Theorem C15_apt_ask_sound : forall hc expect sizeof s out rest,
+  apt_ask hc false expect sizeof s = (Ok out, rest) ->
   exists a b l0 l1 d sr data,
     s = [a; b; l0; l1; d; sr] ++ data ++ rest /\ dec16 a b = expect /\ len data = dec16 l0 l1 /\
     sizeof <= len data /\ out = firstn (N.to_nat sizeof) data.
@@ -361,13 +396,25 @@ Print Assumptions C15_apt_ask_sound.
 (* HEADER_ONLY packet types: ask checks that six bytes arrive and nothing else; in particular the
    message id of the reply is NOT compared with the expected one *)
 Theorem C15_apt_ask_header_only : forall expect sizeof s,
-  apt_ask true expect sizeof s =
+  apt_ask false true expect sizeof s =
     match take 6 s with None => (Err ETimeout, s) | Some (h, r) => (Ok h, r) end.
 Proof. exact apt_ask_header_only_spec. Qed.
 Print Assumptions C15_apt_ask_header_only.
-Theorem C15_apt_ask_header_only_id_unchecked : forall e1 e2 z1 z2 s, apt_ask true e1 z1 s = apt_ask true e2 z2 s.
+Theorem C15_apt_ask_header_only_id_unchecked : forall e1 e2 z1 z2 s, apt_ask false true e1 z1 s = apt_ask false true e2 z2 s.
 Proof. exact apt_ask_header_only_id_unchecked. Qed.
 Print Assumptions C15_apt_ask_header_only_id_unchecked.
+(* an implementation that does compare the id of HEADER_ONLY replies (ho_check = true; the property
+   allows either): a matching header is returned unchanged, another id is an error *)
+Theorem C15_apt_ask_header_only_checked : forall expect sizeof a b c d e f rest,
+  apt_ask true true expect sizeof (a :: b :: c :: d :: e :: f :: rest) =
+    if expect =? dec16 a b then (Ok [a; b; c; d; e; f], rest) else (Err EInstr, rest).
+Proof. exact apt_ask_header_only_checked. Qed.
+Print Assumptions C15_apt_ask_header_only_checked.
+(* either way, what is returned for a HEADER_ONLY type is exactly the six bytes the device sent *)
+Theorem C15_apt_ask_header_only_sound : forall hc expect sizeof s out rest,
+  apt_ask hc true expect sizeof s = (Ok out, rest) -> s = out ++ rest /\ length out = 6%nat.
+Proof. exact apt_ask_header_only_sound. Qed.
+Print Assumptions C15_apt_ask_header_only_sound.
 
 (* field by field, generic over every well-formed layout table (instantiated per packet class in
    coq/gen/C15AptLayouts.v from the ctypes _fields_): unpack (pack values) = values for all in-range
@@ -379,9 +426,9 @@ Proof. exact fields_roundtrip. Qed.
 Print Assumptions C15_apt_fields_roundtrip.
 (* device -> driver: header with the expected id + packed fields: ask returns bytes that unpack to
    exactly those field values *)
-Theorem C15_apt_ask_fields : forall L sizeof expect dst src vss rest,
+Theorem C15_apt_ask_fields : forall hc L sizeof expect dst src vss rest,
   layout_wf L sizeof = true -> values_ok L vss -> expect < 65536 -> dst < 256 -> src < 256 ->
-  exists bytes, apt_ask false expect sizeof (hdr_data expect sizeof dst src ++ pack L vss ++ rest) = (Ok bytes, rest) /\
+  exists bytes, apt_ask hc false expect sizeof (hdr_data expect sizeof dst src ++ pack L vss ++ rest) = (Ok bytes, rest) /\
                 unpack L bytes = vss.
 Proof. exact apt_ask_fields. Qed.
 Print Assumptions C15_apt_ask_fields.
@@ -395,30 +442,31 @@ Print Assumptions C15_apt_write_fields.
 
 (* ============================== non-vacuity ============================================= *)
 (* data made of the three reserved bytes, register number 0x5E *)
-Example C15_ex_ib_valid : valid_msg (mkmsg 15 161 5 94 [94; 10; 13]).
+Definition ex_types : list N := [0; 1; 2; 3; 4; 5; 6; 7; 8; 9].
+Example C15_ex_ib_valid : valid_msg (mkmsg 15 161 5 94 [94; 10; 13]) /\ In 5 ex_types.
 Proof. unfold valid_msg. cbn. lia. Qed.
 Example C15_ex_ib_encode :
   ib_encode (mkmsg 15 161 5 94 [94; 10; 13]) =
     Ok [13; 15; 161; 5; 94; 158; 94; 158; 94; 74; 94; 77; 161; 254; 10] /\
-  ib_decode [13; 15; 161; 5; 94; 158; 94; 158; 94; 74; 94; 77; 161; 254; 10] = Ok (mkmsg 15 161 5 94 [94; 10; 13]).
+  ib_decode ex_types [13; 15; 161; 5; 94; 158; 94; 158; 94; 74; 94; 77; 161; 254; 10] = Ok (mkmsg 15 161 5 94 [94; 10; 13]).
 Proof. vm_compute. split; reflexivity. Qed.
 (* reserved byte inside the CRC: body 0F A1 05 30 00 has CRC 0x175E, sent as 17 5E 9E *)
 Example C15_ex_ib_reserved_crc :
   ib_encode (mkmsg 15 161 5 48 [0]) = Ok [13; 15; 161; 5; 48; 0; 23; 94; 158; 10] /\
-  ib_decode [13; 15; 161; 5; 48; 0; 23; 94; 158; 10] = Ok (mkmsg 15 161 5 48 [0]).
+  ib_decode ex_types [13; 15; 161; 5; 48; 0; 23; 94; 158; 10] = Ok (mkmsg 15 161 5 48 [0]).
 Proof. vm_compute. split; reflexivity. Qed.
 (* a corrupted CRC byte is rejected *)
 Example C15_ex_ib_reject :
-  ib_decode [13; 15; 161; 5; 94; 158; 94; 158; 94; 74; 94; 77; 161; 255; 10] = Err EValue.
+  ib_decode ex_types [13; 15; 161; 5; 94; 158; 94; 158; 94; 74; 94; 77; 161; 255; 10] = Err EValue.
 Proof. vm_compute. reflexivity. Qed.
 Example C15_ex_ib_single_byte :
   crc_of ([15; 161; 5; 48] ++ 0 :: [23; 94]) = 0 /\ crc_of ([15; 161; 5; 48] ++ 1 :: [23; 94]) = 14128.
 Proof. vm_compute. split; reflexivity. Qed.
 Example C15_ex_ib_rr :
   let good := [13; 161; 15; 8; 97; 103; 97; 6; 211; 10] in
-  request_response 1 15 4 97 [] [RdTimeout; RdBytes [13; 1; 2; 10]; RdBytes good] =
+  request_response ex_types 10 161 1 15 4 97 [] [RdTimeout; RdBytes [13; 1; 2; 10]; RdBytes good] =
     (0, [[13; 15; 161; 4; 97; 238; 1; 10]; [13; 15; 161; 4; 97; 238; 1; 10]; [13; 15; 161; 4; 97; 238; 1; 10]],
-     ib_decode good) /\ exists m, ib_decode good = Ok m.
+     ib_decode ex_types good) /\ exists m, ib_decode ex_types good = Ok m.
 Proof. vm_compute. split; [reflexivity|eexists; reflexivity]. Qed.
 
 Example C15_ex_usbtmc_out :
@@ -449,9 +497,9 @@ Proof. vm_compute. split; reflexivity. Qed.
 
 Example C15_ex_apt :
   write_data_command 80 1 1107 [1; 0; 16; 39; 0; 0] = [83; 4; 6; 0; 208; 1; 1; 0; 16; 39; 0; 0] /\
-  apt_ask false 1169 14 ([145; 4; 14; 0; 129; 80] ++ [1; 0; 1; 2; 3; 4; 5; 6; 7; 8; 9; 10; 11; 12] ++ [99])
+  apt_ask false false 1169 14 ([145; 4; 14; 0; 129; 80] ++ [1; 0; 1; 2; 3; 4; 5; 6; 7; 8; 9; 10; 11; 12] ++ [99])
     = (Ok [1; 0; 1; 2; 3; 4; 5; 6; 7; 8; 9; 10; 11; 12], [99]) /\
-  apt_ask false 1169 14 ([146; 4; 14; 0; 129; 80] ++ [1; 0; 1; 2; 3; 4; 5; 6; 7; 8; 9; 10; 11; 12] ++ [99])
+  apt_ask false false 1169 14 ([146; 4; 14; 0; 129; 80] ++ [1; 0; 1; 2; 3; 4; 5; 6; 7; 8; 9; 10; 11; 12] ++ [99])
     = (Err EInstr, [99]).
 Proof. vm_compute. repeat split; reflexivity. Qed.
 
@@ -502,5 +550,13 @@ Example C15_ex_apt_fields :
 Proof. vm_compute. repeat split; reflexivity. Qed.
 (* a MOT_MOVE_COMPLETED header (0x0464) is returned when MOT_MOVE_HOMED (0x0444) was expected *)
 Example C15_ex_apt_header_only_unchecked :
-  apt_ask true 1092 6 [100; 4; 1; 0; 1; 80] = (Ok [100; 4; 1; 0; 1; 80], []).
+  apt_ask false true 1092 6 [100; 4; 1; 0; 1; 80] = (Ok [100; 4; 1; 0; 1; 80], []) /\
+  apt_ask true true 1092 6 [100; 4; 1; 0; 1; 80] = (Err EInstr, []).
 Proof. vm_compute. reflexivity. Qed.
+
+(* retry bound as a parameter: good reply on the 3rd read; bound 2 -> the payload, bound 1 -> an error *)
+Example C15_ex_ib_attempt :
+  let good := [13; 161; 15; 8; 97; 103; 97; 6; 211; 10] in
+  snd (request_response ex_types 2 161 1 15 4 97 [] [RdTimeout; RdBytes [13; 1; 2; 10]; RdBytes good]) = ib_decode ex_types good /\
+  snd (request_response ex_types 1 161 1 15 4 97 [] [RdTimeout; RdBytes [13; 1; 2; 10]; RdBytes good]) = Err EInstr.
+Proof. vm_compute. split; reflexivity. Qed.
